@@ -374,19 +374,25 @@ func (h *Harness) cloneAndCheck(where string, idx int64) {
 // checkClone opens a clone, reads its state and matches it.
 func (h *Harness) checkClone(fs *vfs.MemFS, b bounds, where string, depth int, idx int64) Verdict {
 	// nested crash points during recovery
+	var subMu sync.Mutex
 	var sub []*vfs.MemFS
 	var openFS vfs.FS = fs
 	if depth < h.Depth {
 		var n atomic.Int64
+		// the injector may be called from several goroutines of the recovering DB
 		openFS = errorfs.Wrap(fs, errorfs.InjectorFunc(func(op errorfs.Op) error {
 			if !op.Kind.IsWrite() {
 				return nil
 			}
 			k := n.Add(1)
-			if vcommon.RNG("nested", h.seed, idx, depth, k).IntN(12) == 0 && len(sub) < 2 {
-				pct := []int{0, 100, 50}[int(k)%3]
-				cfg := vfs.CrashCloneCfg{UnsyncedDataPercent: pct, RNG: rand.New(rand.NewPCG(h.seed+7, uint64(idx)*977+uint64(k)))}
-				sub = append(sub, fs.CrashClone(cfg))
+			if vcommon.RNG("nested", h.seed, idx, depth, k).IntN(12) == 0 {
+				subMu.Lock()
+				if len(sub) < 2 {
+					pct := []int{0, 100, 50}[int(k)%3]
+					cfg := vfs.CrashCloneCfg{UnsyncedDataPercent: pct, RNG: rand.New(rand.NewPCG(h.seed+7, uint64(idx)*977+uint64(k)))}
+					sub = append(sub, fs.CrashClone(cfg))
+				}
+				subMu.Unlock()
 			}
 			return nil
 		}))
@@ -441,7 +447,10 @@ func (h *Harness) checkClone(fs *vfs.MemFS, b bounds, where string, depth int, i
 		}
 	}
 	h.R.Distinct("clone", h.Run.Case, idx, depth, v.Prefix, v.Q, fmv, len(canon))
-	for _, s := range sub {
+	subMu.Lock()
+	subs := append([]*vfs.MemFS(nil), sub...)
+	subMu.Unlock()
+	for _, s := range subs {
 		atomic.AddInt64(&h.nested, 1)
 		h.checkClone(s, b, where+" +crash-during-recovery", depth+1, idx*31+int64(depth)+1)
 		if h.Run.Failed() {
